@@ -142,7 +142,7 @@ def exec_run(sched: dict, repo: str, timeout: float = RUN_TIMEOUT) -> dict:
 
 
 def summarise(res: dict, keep=()) -> dict:
-    drop = {"transcript", "final_disk", "final_dirs", "out", "events", "handled_msgs"}
+    drop = {"transcript", "final_disk", "final_dirs", "out", "events", "handled_msgs", "effects"}
     return {k: v for k, v in res.items() if k not in drop or k in keep}
 
 
@@ -178,6 +178,24 @@ def handle_task(task: dict, repo: str) -> dict:
             out["transcript_digest"] = hashlib.sha256(
                 json.dumps(res["transcript"], sort_keys=True).encode()).hexdigest()
             out["transcript_len"] = len(res["transcript"])
+        return out
+    if t == "case":
+        from dst import props
+
+        P = props.get(task["prop"])
+        case = task.get("case")
+        if case is None:
+            case = P.gen_case(task["gen"])
+
+        def run_fn(sched, timeout=RUN_TIMEOUT):
+            return exec_run(sched, repo, timeout)
+
+        out = summarise(P.exec_case(case, run_fn))
+        if task.get("echo_case") or any(v.get("prop") == task["prop"] for v in out.get("violations", [])):
+            out["case"] = case
+        import hashlib as _h
+
+        out["sched_digest"] = _h.sha256(json.dumps(case, sort_keys=True).encode()).hexdigest()[:16]
         return out
     raise ValueError(t)
 
